@@ -302,16 +302,18 @@ def translate(case_line, trace_line):
             new_group("D:%d:%s" % (pending_del, _ca(tk[1:], wire, t.ca_leaks, "op %d (%s)" % (len(t.groups), cur_hop))),
                       cur_hop)
             continue
-        if tk.startswith("F"):
-            c, tok, mid = tk[1:].split(":")
+        if tk.startswith("U"):
+            # a confirmable message is given up (seen at coap_retransmit, independent of what the
+            # library then does): the de-registration event "failed Confirmable notification"
+            c, mid = tk[1:].split(":")
             key = (int(c), int(mid))
             wire.get(int(c), set()).discard(int(mid))
             if key in by_mid:
                 new_group("F:%d:%d" % (int(c), by_mid[key]), cur_hop)
                 cur = None
-            else:
-                t.ok = False
-                t.why = "give-up of an unknown message " + tk
+            continue
+        if tk.startswith("F"):
+            # coap_handle_failed_notify ran (informational; the model op was made at the U event)
             continue
         if tk.startswith("X"):
             f = tk[1:].split(":")
